@@ -8,7 +8,8 @@ SmallStreams == UNION {{[A |-> a, trunc |-> t, max |-> m] : t \in 0..Total(a), m
 SmallChunks == {1, 2, 3, 7, 8, 9, 15}
 
 \* messages around the initial 512-byte buffer and around the limit; announced lengths relative to the limit
-BigA == {<<520>>, <<504, 16>>, <<512, 8>>, <<520, 520>>, <<1048576>>, <<1048584>>, <<8, 1048568, 8>>, <<1073741824>>}
+BigA == {<<520>>, <<504, 16>>, <<512, 8>>, <<520, 520>>, <<1048576>>, <<1048584>>, <<8, 1048568, 8>>, <<1073741824>>,
+         <<16, 600, 40, 1000>>, <<3000, 104, 9000, 24>>, <<520, 1048576>>}      \* the last three: the buffer grows more than once on one stream
 BigStreams == UNION {{[A |-> a, trunc |-> t, max |-> m] :
                         t \in {Total(a), Total(a) - 1, Total(a) - 8, 8, 9, 511, 512, 513} \cap 0..Total(a),
                         m \in {0, 512, 1048576}} : a \in BigA}
